@@ -147,7 +147,10 @@ func (g *clGen) node(parent, depth int) {
 	// body
 	for i, k := 0, 1+t.Choose(4); i < k; i++ {
 		g.left--
-		switch t.Weighted(4, 2, 3, 3, 1) {
+		switch t.Weighted(4, 2, 3, 3, 1, 1) {
+		case 5:
+			// a kill or stop aimed at a context that has already ended is nothing to the caller
+			g.ln(`if ENDED then emit("endedkill", %d) if %d %% 2 == 0 then ENDED:killnow() else ENDED:stopnow() end emit("survived", %d) end`, id, id, id)
 		case 0:
 			g.ln(`work(%d)`, []int{10, 100, 600, 3000}[t.Choose(4)])
 		case 1:
@@ -179,6 +182,7 @@ func (g *clGen) node(parent, depth int) {
 	}
 	g.ind--
 	g.ln(`end, %d, "b%d")`, id, id)
+	g.ln(`ENDED = r`)
 	g.ln(`local q = runtime.context()`)
 	g.ln(`emit("after", %d, r.status, r.used.cpu, r.used.memory, r.kill.cpu, r.kill.memory, q.used.cpu, q.used.memory, acc, v1, v2)`, id)
 	g.ind--
@@ -309,10 +313,18 @@ func runCtxLua(ctx *core.RunCtx) {
 	stopSeen := map[int]bool{} // a stop was requested in this context or in an enclosing one before it was created
 	open := []int{}
 	maxAcc := uint64(0)
+	pendingEndedKill := 0
 	for _, e := range events {
 		f := clFields(e)
 		if len(f) < 3 || f[0] != "emit" {
 			continue
+		}
+		if pendingEndedKill != 0 && strings.Trim(f[1], `"`) == "after" && len(f) > 3 && f[3] == `"killed"` {
+			pendingEndedKill = 0 // a limit was reached just then: the context was killed, legitimately
+		}
+		if pendingEndedKill != 0 && strings.Trim(f[1], `"`) != "survived" {
+			fail("L4", "kill-of-ended-context-abandons-caller", "context %d called killnow/stopnow on a context that had ended and did not get control back: next event %s", pendingEndedKill, e)
+			return
 		}
 		tag := strings.Trim(f[1], `"`)
 		id, _ := strconv.Atoi(f[2])
@@ -462,6 +474,11 @@ func runCtxLua(ctx *core.RunCtx) {
 					return
 				}
 			}
+		case "endedkill":
+			pendingEndedKill = id
+			continue
+		case "survived":
+			pendingEndedKill = 0
 		case "stopreq":
 			stopSeen[id] = true
 		case "due":
